@@ -134,7 +134,8 @@ class Program:
     # -- C13 ------------------------------------------------------------------
     def used(self, nd):
         if nd.kind == "gate":
-            if nd.name in (self.p_gate, self.m_gate) or nd.name in gateset_sig.BUSY:
+            base = nd.name[: -len(gateset_sig.STRETCH_SUFFIX)] if nd.name.endswith(gateset_sig.STRETCH_SUFFIX) else nd.name
+            if nd.name in (self.p_gate, self.m_gate) or base in gateset_sig.BUSY:  # a stretched busy gate is a busy gate
                 return set(range(self.n))
             if nd.name.startswith("I_"):
                 return set()
